@@ -28,8 +28,10 @@ VARIABLES l,        \* next line to consume
           cnt,      \* inputs consumed in this stream
           maxabs,   \* largest |input| of this stream (in units of 1/unit)
           cur, prv, \* the answer on the line just consumed, and the one before
+          aux,      \* ghost: data that depends on the configuration only (Alma kernel weights), evaluated once per stream
+          gap,      \* number of inputs consumed by the last line (answers in between were not recorded if > 1)
           sid       \* stream number
-vars == <<l, hd, win, agg, cnt, maxabs, cur, prv, sid>>
+vars == <<l, hd, win, agg, cnt, maxabs, cur, prv, aux, gap, sid>>
 
 KMem(cfg, mode) == IF mode # "window" THEN 1000000000
                    ELSE IF cfg.k \in {"Rsi", "MyRSI", "Roc"} THEN cfg.n + 1 ELSE cfg.n
@@ -49,7 +51,7 @@ AggFold(a, xs, i) ==
          IN  AggFold(<<a[1] + 1, WAdd(a[2], x), WAdd(a[3], WMul(x, x)), pk, QMax(a[5], dd), a[7], xs[i]>>, xs, i + 1)
 
 Init == /\ l = 1 /\ hd = <<>> /\ win = <<>> /\ agg = AggInit /\ cnt = 0 /\ maxabs = 0
-        /\ cur = <<"n">> /\ prv = <<"n">> /\ sid = 0
+        /\ cur = <<"n">> /\ prv = <<"n">> /\ aux = <<>> /\ gap = 0 /\ sid = 0
 
 IsHeader(e) == "cfg" \in DOMAIN e
 Next == /\ l <= Len(Rec)
@@ -57,13 +59,14 @@ Next == /\ l <= Len(Rec)
         /\ LET e == Rec[l] IN
            IF IsHeader(e)
            THEN /\ hd' = e /\ win' = <<>> /\ agg' = AggInit /\ cnt' = 0 /\ maxabs' = 0
-                /\ cur' = <<"n">> /\ prv' = <<"n">> /\ sid' = sid + 1
+                /\ cur' = <<"n">> /\ prv' = <<"n">> /\ gap' = 0 /\ sid' = sid + 1
+                /\ aux' = IF e.cfg.k = "Alma" /\ e.mode = "window" THEN AlmaWeights(e.cfg.n, SigmaOf(e.cfg), OffsetOf(e.cfg)) ELSE <<>>
            ELSE /\ win' = LastK(win \o e.xs, KMem(hd.cfg, hd.mode))
                 /\ agg' = IF hd.mode = "rolling" THEN AggFold(agg, e.xs, 1) ELSE agg
                 /\ cnt' = cnt + Len(e.xs)
                 /\ maxabs' = MaxAbsSeq(e.xs, 1, maxabs)
-                /\ cur' = e.o /\ prv' = cur
-                /\ UNCHANGED <<hd, sid>>
+                /\ cur' = e.o /\ prv' = cur /\ gap' = Len(e.xs)
+                /\ UNCHANGED <<hd, sid, aux>>
 
 -----------------------------------------------------------------------------
 U == hd.unit
@@ -81,6 +84,7 @@ RollingDef(cfg) ==
 
 WindowDef(cfg, w) ==
     IF cfg.k = "Roc" /\ Len(w) > 0 /\ QIsZero(IF Len(w) > cfg.n THEN w[Len(w) - cfg.n] ELSE w[1]) THEN RHold
+    ELSE IF cfg.k = "Alma" THEN Alma_DefW(cfg.n, aux, w)
     ELSE KindDef(cfg, w)
 
 Expected == CASE hd.mode = "full"    -> TreeDef(hd.cfg, XQ(win))
@@ -101,7 +105,7 @@ Eps == QFrac(hd.eps[1], hd.eps[2])
 Within(o, r) ==
     CASE r[1] = "any"  -> TRUE
       [] r[1] = "n"    -> OIsNone(o)
-      [] r[1] = "hold" -> OSameValue(o, prv)
+      [] r[1] = "hold" -> gap # 1 \/ OSameValue(o, prv)      \* "keeps its previous answer" needs the previous answer on record
       [] r[1] \in {"q", "oq"} -> (r[1] = "oq" /\ OIsNone(o)) \/ OCloseQ(o, r[2], QMul(Eps, Scale(hd.cfg, r[2])))
       [] r[1] \in {"f", "of"} -> (r[1] = "of" /\ OIsNone(o)) \/ OCloseQ(o, FToQ(r[2]), QMul(Eps, Scale(hd.cfg, FToQ(r[2]))))
       [] r[1] = "f2"   -> OCloseQ(o, FToQ(r[2]), QMul(Eps, Scale(hd.cfg, FToQ(r[2])))) \/ OCloseQ(o, FToQ(r[3]), QMul(Eps, Scale(hd.cfg, FToQ(r[3]))))
